@@ -49,7 +49,9 @@ func shapes(rng *hx.Rng, tok string) []shape {
 	m := func(i int) string { return fmt.Sprintf("MARK-%s-%d", tok, i) }
 	big := filler(rng, 1500+rng.Intn(3000))
 	B := "bnd" + tok
-	multi := func(ct string, body string) string { return head + "MIME-Version: 1.0\r\nContent-Type: " + ct + "\r\n\r\n" + body }
+	multi := func(ct string, body string) string {
+		return head + "MIME-Version: 1.0\r\nContent-Type: " + ct + "\r\n\r\n" + body
+	}
 	two := "--" + B + "\r\nContent-Type: text/plain\r\n\r\n" + m(1) + " first part\r\n--" + B + "\r\nContent-Type: text/html\r\n\r\n<p>" + m(2) + "</p>\r\n--" + B + "--\r\n"
 	return []shape{
 		{"single", head + "\r\n" + m(1) + " plain body\r\n", []string{m(1)}, true},
@@ -73,6 +75,8 @@ func shapes(rng *hx.Rng, tok string) []shape {
 		{"multi-only-closing-delimiter", multi("multipart/mixed; boundary="+B, "--"+B+"--\r\n"), nil, true},
 		{"multi-part-without-headers", multi("multipart/mixed; boundary="+B, "--"+B+"\r\n\r\n"+m(1)+" headerless part\r\n--"+B+"--\r\n"), []string{m(1)}, true},
 		{"multi-odd-boundary-chars", multi("multipart/mixed; boundary=\"a'()+_,-./:=? b"+tok+"\"", strings.ReplaceAll(two, B, "a'()+_,-./:=? b"+tok)), []string{m(1), m(2)}, true},
+		{"single-b64-undecodable-large", head + "MIME-Version: 1.0\r\nContent-Type: application/octet-stream\r\nContent-Transfer-Encoding: base64\r\n\r\n" + m(1) + " !!! this is not base64 !!!\r\n" + big, []string{m(1)}, true},
+		{"multi-b64-undecodable-attachment", multi("multipart/mixed; boundary="+B, "--"+B+"\r\nContent-Type: text/plain\r\n\r\n"+m(1)+"\r\n--"+B+"\r\nContent-Type: application/pdf; name=\"x.pdf\"\r\nContent-Transfer-Encoding: base64\r\nContent-Disposition: attachment; filename=\"x.pdf\"\r\n\r\n"+m(2)+" ~~~ truncated or corrupt attachment ~~~\r\n"+big+"--"+B+"--\r\n"), []string{m(1), m(2)}, true},
 		{"content-type-garbage", head + "Content-Type: ;;;\r\n\r\n" + m(1) + " body\r\n", []string{m(1)}, true},
 		{"content-type-twice", head + "Content-Type: text/plain\r\nContent-Type: multipart/mixed; boundary=" + B + "\r\n\r\n" + m(1) + " body\r\n", []string{m(1)}, true},
 		{"dot-lines", head + "\r\n.\r\n..\r\n.leading dot " + m(1) + "\r\n...\r\n", []string{m(1)}, true},
@@ -352,7 +356,7 @@ func deliverCfg(w *world.World, cfg *config.Config, from string, rcpts []string,
 func main() {
 	o, rep := hx.Init("C01")
 	hx.Quiet()
-	rep.Rule = "LMTP transactions: 28 message shapes (single part in four encodings, empty and large bodies, well-formed and nested multiparts, preamble/epilogue, message/rfc822, multipart without / with empty / with mismatching / without closing / with only the closing boundary, no delimiter at all, odd boundary characters, unparsable and doubled Content-Type, dot lines, missing To / From, no header) × recipient lists of 1..5 over {existing users, new users, role address, exact duplicates, another domain} × default folder {INBOX, existing other, not yet existing} × spam routing × a prior history of the target mailboxes (APPEND, UID COPY into INBOX, EXPUNGE first / all, RENAME INBOX, COPY out); distinct by (shape, recipients, folder, spam, history); non-trivial unless a plain message goes to one recipient without history"
+	rep.Rule = "LMTP transactions: 30 message shapes (single part in four encodings, empty and large bodies, well-formed and nested multiparts, preamble/epilogue, message/rfc822, multipart without / with empty / with mismatching / without closing / with only the closing boundary, no delimiter at all, odd boundary characters, unparsable and doubled Content-Type, dot lines, missing To / From, no header) × recipient lists of 1..5 over {existing users, new users, role address, exact duplicates, another domain} × default folder {INBOX, existing other, not yet existing} × spam routing × a prior history of the target mailboxes (APPEND, UID COPY into INBOX, EXPUNGE first / all, RENAME INBOX, COPY out); distinct by (shape, recipients, folder, spam, history); non-trivial unless a plain message goes to one recipient without history"
 	dir, cleanup := hx.WorkDir("c01")
 	defer cleanup()
 	w, err := world.New(dir, "example.com")
